@@ -56,6 +56,33 @@ def spec_bounds(spec, value, prefix):
     return out
 
 
+def declared_time_bounds(env, leaf, T):
+    """(lo, hi) declared by the REAL observation_spec for `leaf` as a function of the symbolic time limit T.  The real spec property is
+    evaluated (cache bypassed) at two concrete limits; bounds that move with the limit must be affine with slope 0 or 1 in it - anything else is
+    refused (the caller then has no C01 clause for the leaf and the zero-obligation/baseline guard fires)."""
+    import numpy as np
+
+    prop = type(env).__dict__.get("observation_spec") or next(c.__dict__["observation_spec"] for c in type(env).__mro__ if "observation_spec" in c.__dict__)
+    fn = getattr(prop, "func", None) or prop.fget
+    t0 = 5  # two concrete probe limits (env.time_limit itself may be the symbolic T at this point)
+    res = []
+    for t in (t0, t0 + 3):
+        with with_attr(env, "time_limit", t), jax.ensure_compile_time_eval():  # the spec is built eagerly even inside a trace
+            sp = fn(env)
+        sub = sp._specs[leaf]
+        res.append((np.asarray(sub.minimum), np.asarray(sub.maximum)))
+    out = []
+    for a, b in zip(res[0], res[1]):
+        d = b - a
+        if np.all(d == 0):
+            out.append(jnp.asarray(a))
+        elif np.all(d == 3):
+            out.append(T + jnp.asarray(a - t0))
+        else:
+            raise ValueError(f"declared bound of {leaf} is not affine (slope 0/1) in time_limit: {a} -> {b}")
+    return tuple(out)
+
+
 def spec_avals(spec, shaped, prefix):
     """[(name, ok, detail)]: structure, shape and dtype of an abstract value against a (possibly nested) spec"""
     from jumanji import specs
